@@ -660,8 +660,35 @@ func (sp *srcPkg) inlineSite(f *srcFile, c *helperCand, call *ast.CallExpr, sel 
 	if usedStmt[stmt] || usedStmt[insertAt] {
 		return false, "another call of this statement is inlined in this round (next round)"
 	}
-	// the call must be the first call/receive evaluated in the region
+	// calls/receives evaluated before the call in the region are hoisted into temporaries in front of the
+	// inlined body (evaluation order of calls is preserved); they must be unconditional and single-valued
 	firstOK := true
+	var hoist []ast.Expr
+	hoistable := func(x ast.Expr) bool {
+		for y := ast.Node(x); y != region && y != nil; y = parents[y] {
+			if be, ok := parents[y].(*ast.BinaryExpr); ok && (be.Op == token.LAND || be.Op == token.LOR) && be.Y == y {
+				return false
+			}
+		}
+		t := info.TypeOf(x)
+		if t == nil {
+			return false
+		}
+		if _, isTuple := t.(*types.Tuple); isTuple {
+			return false
+		}
+		if b, ok := t.(*types.Basic); ok && b.Info()&types.IsUntyped != 0 {
+			return false
+		}
+		if as, ok := stmt.(*ast.AssignStmt); ok {
+			for _, l := range as.Lhs {
+				if containsNode(l, x) {
+					return false
+				}
+			}
+		}
+		return true
+	}
 	ast.Inspect(region, func(n ast.Node) bool {
 		if n == nil || !firstOK {
 			return false
@@ -672,6 +699,10 @@ func (sp *srcPkg) inlineSite(f *srcFile, c *helperCand, call *ast.CallExpr, sel 
 		switch x := n.(type) {
 		case *ast.CallExpr:
 			if x != call && x.Pos() < call.Pos() && !containsNode(x, call) && !transparentCall(info, x) {
+				if hoistable(x) {
+					hoist = append(hoist, x)
+					return false // outermost only
+				}
 				firstOK = false
 			}
 			if x != call && containsNode(x, call) && x.Pos() < call.Pos() {
@@ -682,13 +713,17 @@ func (sp *srcPkg) inlineSite(f *srcFile, c *helperCand, call *ast.CallExpr, sel 
 			}
 		case *ast.UnaryExpr:
 			if x.Op == token.ARROW && x.Pos() < call.Pos() && !containsNode(x, call) {
+				if hoistable(x) {
+					hoist = append(hoist, x)
+					return false
+				}
 				firstOK = false
 			}
 		}
 		return true
 	})
 	if !firstOK {
-		return false, "another call or receive is evaluated before it in the statement"
+		return false, "another call or receive is evaluated before it in the statement and cannot be hoisted"
 	}
 	// multi-value use
 	nres := sig.Results().Len()
@@ -719,6 +754,12 @@ func (sp *srcPkg) inlineSite(f *srcFile, c *helperCand, call *ast.CallExpr, sel 
 	var pre, inner strings.Builder
 	htext := func(from, to token.Pos) string { return sp.text(hfile, from, to) }
 	ctext := func(from, to token.Pos) string { return sp.text(f, from, to) }
+	var hoistEdits []textEdit
+	for i, h := range hoist {
+		hv := fmt.Sprintf("%s_h%d", pfx, i)
+		fmt.Fprintf(&pre, "%s%s := %s; _ = %s; ", sp.lineDirective(h.Pos()), hv, ctext(h.Pos(), h.End()), hv)
+		hoistEdits = append(hoistEdits, textEdit{sp.off(h.Pos()), sp.off(h.End()), hv + sp.lineDirective(h.End())})
+	}
 	if c.recv != nil {
 		if sel == nil {
 			return false, "method called without selector"
@@ -881,6 +922,7 @@ func (sp *srcPkg) inlineSite(f *srcFile, c *helperCand, call *ast.CallExpr, sel 
 			edits[file] = append(edits[file], textEdit{sp.off(insertAt.End()), sp.off(insertAt.End()), closeTxt + sp.lineDirective(insertAt.End())})
 		}
 	}
+	edits[file] = append(edits[file], hoistEdits...)
 	usedStmt[stmt] = true
 	usedStmt[insertAt] = true
 	if len(needImport) > 0 {
